@@ -170,6 +170,7 @@ func runHTTPScenario(t *testing.T, sc hScenario) (lines []M, problem string) {
 			hdr        string
 			body       []byte
 			skip       bool
+			cancelled  bool
 		}
 		arrivals := map[int]*arrival{}
 		srv := &http.Server{Handler: http.HandlerFunc(func(w http.ResponseWriter, r *http.Request) {
@@ -208,6 +209,20 @@ func runHTTPScenario(t *testing.T, sc hScenario) (lines []M, problem string) {
 			}
 			if sr.Mode == "slow" {
 				time.Sleep(unit) // the server takes a while to answer: Retry-After counts from the answer, not from the request
+			}
+			if sr.Mode == "slow3" {
+				// a very slow answer: a client-side Timeout fires meanwhile, and the attempt - whatever its body - is cancelled
+				tm := time.NewTimer(3 * unit)
+				select {
+				case <-tm.C:
+				case <-r.Context().Done():
+					tm.Stop()
+					mu.Lock()
+					a.cancelled = true
+					a.tend = time.Since(t0)
+					mu.Unlock()
+					return
+				}
 			}
 			w.WriteHeader(sr.Status)
 			if sr.Mode == "streamed" {
@@ -275,6 +290,8 @@ func runHTTPScenario(t *testing.T, sc hScenario) (lines []M, problem string) {
 				ps = append(ps, failsafehttp.RetryPolicyBuilder().WithMaxRetries(sc.MaxRetries).ReturnLastFailure().WithBackoff(unit/10, unit/2).Build())
 			case "timeout":
 				ps = append(ps, timeout.With[*http.Response](time.Hour))
+			case "timeout1":
+				ps = append(ps, timeout.With[*http.Response](unit)) // a Timeout that fires while the server is still thinking
 			case "hedge":
 				ps = append(ps, hedgepolicy.WithDelay[*http.Response](time.Hour))
 			case "breaker":
@@ -360,6 +377,9 @@ func runHTTPScenario(t *testing.T, sc hScenario) (lines []M, problem string) {
 				}
 			}
 		}
+		// (let everything settle first: a server handler learns of a cancelled attempt a little later than the caller returns)
+		time.Sleep(10 * unit)
+		synctest.Wait()
 		// attempts as the server saw them
 		mu.Lock()
 		for n := 1; n <= attempt; n++ {
@@ -370,14 +390,10 @@ func runHTTPScenario(t *testing.T, sc hScenario) (lines []M, problem string) {
 			}
 			lines = append(lines, M{"ev": "Req", "n": n, "t": int64(a.t / unit), "tend": int64(a.tend / unit),
 				"sameMethod": a.method == method, "sameURL": a.ur == "/path/x?q=1", "sameHeaders": a.hdr == "h1|text/x-test",
-				"bodyComplete": a.skip || bytes.Equal(a.body, data), "bodyLen": len(a.body), "ctxValues": cs["vals"], "ctxDeadline": cs["dl"]})
+				"bodyComplete": a.skip || bytes.Equal(a.body, data), "bodyLen": len(a.body), "ctxValues": cs["vals"], "ctxDeadline": cs["dl"], "srvCancelled": a.cancelled})
 		}
 		mu.Unlock()
 		add(final)
-		rcancel2 := rcancel
-		_ = rcancel2
-		time.Sleep(10 * unit)
-		synctest.Wait()
 		live, stacks := liveLibraryGoroutines()
 		mu.Lock()
 		unclosed := opened - closedN
